@@ -57,3 +57,40 @@ Proof.
   split; [|vm_compute; reflexivity].
   intros k [<-|[<-|[<-|[]]]]; cbv; reflexivity.
 Qed.
+
+(* ---- the lifting lemma of C02 instantiated for the dimensions cache: no hypothesis about the codec is left ---- *)
+From Pyro Require Import Model.Lfu Model.Cache Proofs.CacheProofs Proofs.C02Lift.
+
+Definition dm_dflt (k : bytes) : dim := [].                       (* dimension.New() *)
+Definition dm_enc (k : bytes) (d : dim) : bytes := dim_enc d.     (* Dimension.Bytes *)
+Definition dm_dec (k : bytes) (bs : bytes) : dim :=               (* dimension.FromBytes (an error is not a dimension) *)
+  match dim_dec bs with Some d => d | None => [] end.
+
+Definition bytes_eq_dec : forall a b : bytes, {a = b} + {a <> b} := list_eq_dec N.eq_dec.
+
+(* objects put into the cache have keys shorter than 2^64 bytes, and so do the results of the functions applied to
+   them (Dimension.Insert / Delete of such a key) *)
+Definition dim_op (o : op (K:=bytes) (V:=dim)) : Prop :=
+  match o with
+  | OPut _ d => keys_small d
+  | OMutate _ f => forall d, keys_small d -> keys_small (f d)
+  | _ => True
+  end.
+
+Theorem dims_transparent : forall cops,
+  forallb (is_sync (K:=bytes) (V:=dim)) cops = true ->
+  Forall dim_op (lower cops) ->
+  rets (fst (run bytes_eq_dec dm_dflt dm_enc dm_dec c_empty (lower cops))) =
+  rets (fst (run bytes_eq_dec dm_dflt dm_enc dm_dec c_empty (lower (filter (fun o => negb (is_maint o)) cops)))).
+Proof.
+  intros cops S H.
+  assert (F : Forall2 eq (rets (fst (run bytes_eq_dec dm_dflt dm_enc dm_dec c_empty (lower cops))))
+                         (rets (fst (run bytes_eq_dec dm_dflt dm_enc dm_dec c_empty (lower (filter (fun o => negb (is_maint o)) cops)))))).
+  { apply (cache_transparent_valid bytes_eq_dec dm_dflt dm_enc dm_dec (Pv := keys_small) (Req := eq)); auto.
+    - intros k x [].
+    - intros k v Hv. unfold dm_dec, dm_enc. rewrite dim_roundtrip by exact Hv. exact Hv.
+    - intros k v Hv. unfold dm_dec, dm_enc. rewrite dim_roundtrip by exact Hv. reflexivity.
+    - eapply Forall_impl; [|exact H]. intros o Ho. destruct o; cbn in *; auto.
+      split; [exact Ho | intros; congruence]. }
+  induction F; congruence.
+Qed.
